@@ -24,7 +24,7 @@ func init() {
 	extraLemmaFuncs = append(extraLemmaFuncs, c03LemmaFuncs...)
 	Register(&Spec{
 		ID:          "C03",
-		Explanation: "Decides that the bit layout of every pointer-word decoder equals the encoding specification, by abstract interpretation of the decoder functions over a per-bit provenance domain (R1: type bits [0,2), far flag bit 2, offset = sign-extended [2,32), data words [32,48), pointer count [48,64), element size [32,35), count [35,64), far offset [3,32) bytes, segment id [32,64), landing-pad rewrite); that the resolution code has the confirmed normal form in each pointer shape (R2: near pointers against paddr+8, far against the pad's +8, double-far against offset 0 of the segment named in the pad with the tag's size fields; composite lists take count and element size from the tag and start one word later); and the default/upgrade clauses (R3: dataAddress and Struct.Ptr fail beyond the section, primitiveElem on a struct list requires both sections to be large enough and returns the address of the section the expected element names). (R2a) the field accessors and the address arithmetic they use have their confirmed normal forms (a read that succeeds lies inside the section; a field beyond it reads as the default); (R5) the three readers construct objects only under a bounds test of the constructed extent (shared with C01-R5). Does NOT decide value equality of decoded trees against an independent decoder.",
+		Explanation: "Decides that the bit layout of every pointer-word decoder equals the encoding specification, by abstract interpretation of the decoder functions over a per-bit provenance domain (R1: type bits [0,2), far flag bit 2, offset = sign-extended [2,32), data words [32,48), pointer count [48,64), element size [32,35), count [35,64), far offset [3,32) bytes, segment id [32,64), landing-pad rewrite); that the resolution code has the confirmed normal form in each pointer shape (R2: near pointers against paddr+8, far against the pad's +8, double-far against offset 0 of the segment named in the pad with the tag's size fields; composite lists take count and element size from the tag and start one word later); and the default/upgrade clauses (R3: dataAddress and Struct.Ptr fail beyond the section, primitiveElem on a struct list requires both sections to be large enough and returns the address of the section the expected element names). (R2a) the field accessors and the address arithmetic they use have their confirmed normal forms (a read that succeeds lies inside the section; a field beyond it reads as the default); (R5) the three readers construct objects only under a bounds test of the constructed extent (shared with C01-R5). (R6r) Message.Reset clears the cached first segment and the segment map on every path (shared with C14-R5). Does NOT decide value equality of decoded trees against an independent decoder.",
 		Run:         runC03,
 	})
 }
@@ -63,6 +63,9 @@ var decoderCases = []bitCase{
 }
 
 func runC03(ctx *Ctx) {
+	// a reused Message reads the segments of its new arena: Reset clears the
+	// cached first segment and the segment map on every path (shared with C14-R5)
+	ruleResetComplete(ctx, "C03-R6r", "capnp", "Message", "Reset", []string{"CapTable", "Arena"})
 	ruleBitLayout(ctx, "C03-R1", decoderCases)
 	if ctx.Primary {
 		ruleKernelLemmas(ctx, "C03-R2", c03LemmaFuncs)
